@@ -39,3 +39,12 @@ Theorem C04_ift_backward_adjoint_conj : forall (F : fieldType) (cj : {rmorphism 
   \tr (map_mx cj G^T *m dy) = \tr (map_mx cj (map_mx cj P^T *m g)^T *m dth).
 Proof. move=> F cj cjK n p J P dy dth G g; exact: ift_backward_adjoint_conj. Qed.
 Print Assumptions C04_ift_backward_adjoint_conj.
+
+(* ---- xitorch/_utils/misc.py:TensorNonTensorSeparator as translated from /repo on this run (Gen/PyMisc.v): for EVERY
+   parameter list the split followed by reconstruct_params is the identity (also with the default non-tensor part),
+   new tensor arguments land at the tensor positions in order, a wrong number of arguments is rejected.  Statement:
+   Proofs/PySeparatorProofs.v, translated_separator_statement. ---- *)
+From XV Require Proofs.PySeparatorProofs.
+Theorem C04_translated_separator_roundtrip : PySeparatorProofs.translated_separator_statement.
+Proof. exact PySeparatorProofs.translated_separator. Qed.
+Print Assumptions C04_translated_separator_roundtrip.
